@@ -31,6 +31,9 @@ UNWRAP = re.compile(r"^std::(option::Option|result::Result)::<.*>::(unwrap|expec
 PANIC_FN = re.compile(r"^core::panicking::|^std::rt::begin_panic|^std::rt::panic_fmt|^core::option::expect_failed|^core::result::unwrap_failed")
 PANIC_MACROS = ("panic!", "assert!", "unreachable!", "assert_eq!", "assert_ne!", "unimplemented!", "todo!")
 NO_PROP = re.compile(r"tracing|^core::fmt|^std::fmt|^alloc::fmt|monitor::Monitor::(count|error|start_task)|Task::(set_name|increment|set_total)$")
+# accessors whose result is range-limited by the invariant of a validated type: arithmetic on
+# it cannot overflow whatever the input was (jiff: |subsec| < 1e9, seconds within +-3.8e11)
+BOUNDED_RESULT = re.compile(r"^jiff::Timestamp::(as_second|subsec_nanosecond|as_millisecond|subsec_millisecond|subsec_microsecond)$")
 IO_CALLS = re.compile(r"^(tokio|std)::fs::|^aws_sdk_s3::|^aws_config::|^ssh2::|^std::io::|^tokio::io::|^filetime::|^std::os::|^uzers::|^nix::|^tempfile::|^std::env::|^std::time::|^jiff::Timestamp::now$|^cachedir::")
 SOURCE_CALLS = re.compile(r"^serde_json::from_(slice|str|reader)$|^transport::Transport::(read|list_dir)(::\{closure#0\})?$"
                           r"|^compress::snappy::Decompressor::decompress$")
@@ -387,7 +390,7 @@ class Taint:
                 D = set(argD[0]) if argD else set()
                 for v in argV[1:]:
                     V |= v
-            elif IO_CALLS.search(name):
+            elif IO_CALLS.search(name) or BOUNDED_RESULT.search(name):
                 V = set()
             else:
                 V = set(anyV)
